@@ -147,9 +147,12 @@ def st_case(draw, threaded=False):
     nsub = draw(st.sampled_from([1, 2, 2, 2, 3, 3, 4]))
     npool = nsub + draw(st.sampled_from([0, 0, 1]))
     pool = draw(st_pool(unit, npool))
-    names = draw(st.permutations(list(range(npool)))) if draw(st.sampled_from([0] * 9 + [1])) else list(range(npool))
+    # run names: in a third of the cases the name order differs from the order of run start (permuted names, or
+    # plain decimal names 8, 9, 10, 11 whose string order is not their numeric order)
+    style = draw(st.sampled_from(["pad"] * 6 + ["perm"] * 2 + ["plain"]))
+    names = draw(st.permutations(list(range(npool)))) if style == "perm" else list(range(npool))
     for r, nm in zip(pool, names):
-        r["name"] = f"{nm:03d}"
+        r["name"] = f"{nm + 8}" if style == "plain" else f"{nm:03d}"
     members = sorted(draw(st.permutations(list(range(npool))))[:nsub])
     A = list(draw(st.permutations(members)))
     B = None
